@@ -1253,6 +1253,12 @@ func (s *Session) output(seg *segment, remoteAddr net.Addr) error {
 	default:
 		return fmt.Errorf("unsupported transport protocol %v", s.transportProtocol)
 	}
+	if protocol := seg.metadata.Protocol(); protocol == ackClientToServer || protocol == ackServerToClient {
+		// An ACK repeats the last assigned sequence number. Sending it
+		// doesn't mean the segment with that sequence number was sent.
+		s.lastTXTime.Store(time.Now().UnixMicro())
+		return nil
+	}
 	seq, _ := seg.Seq()
 	s.lastSend.Store(seq)
 	s.lastTXTime.Store(time.Now().UnixMicro())
